@@ -305,6 +305,10 @@ func checkC12(c LayoutCase) Verdict {
 	}
 	if c.CLI && asm.GoskPath() != "" && !r0.Failed() {
 		b, ok := asm.FreshProcessBytes(re)
+		if !ok && asm.FreshProcessUndecided(re) {
+			v.Skip = "the gosk binary did not finish (time-out or start failure): inconclusive"
+			return v
+		}
 		if !ok {
 			return fail("cli-acceptance|eol="+fmt.Sprintf("%q", c.EOL), "the library assembles the re-laid-out source, the gosk binary fails on it")
 		}
